@@ -22,7 +22,8 @@ Pick(S) == IF Mode = "sim" THEN {RandomElement(S)} ELSE S
 
 PN == {"k", "p", "q"}
 GVals == {I(5), I(3), R(1, 2)}          \* values of globals
-LVals == {I(2), I(7), R(1, 4)}          \* values of locals: never the value of a global
+LVals == {I(2), I(7), R(1, 4)}          \* values of locals that differ from every global value; a local may ALSO repeat
+                                        \* the value of the global (or of another reaction's local) it collides with
 XG == {I(0), I(1), I(2), I(3), R(1, 2), R(5, 2)}
 AmtG == {I(2), R(3, 2), I(7)}
 ConcG == {I(1), R(5, 2), I(4)}
@@ -36,6 +37,7 @@ RuleVars == {doc.rules[j].var : j \in DOMAIN doc.rules}
 Assigned == {doc.rules[j].var : j \in {i \in DOMAIN doc.rules : doc.rules[i].kind = "assignment"}}
 AssignReads == UNION {IdsE(doc.rules[j].math) : j \in {i \in DOMAIN doc.rules : doc.rules[i].kind = "assignment"}}
 
+GlobVal(n) == doc.params[CHOOSE i \in DOMAIN doc.params : doc.params[i].id = n].val
 \* ---------------------------------------------------------------- kinetic laws and rule maths
 KLTpls == {"uni", "bi", "sat", "diff", "const", "two"}
 KLOfTpl(t, a1, a2, sa, sb) ==
@@ -100,16 +102,24 @@ MkRx(reac, prod, kl, L, lv, extra) ==
 
 AddReaction ==
     /\ pc = "body" /\ Len(doc.rx) < MaxRx
-    /\ LET ok == SpNames \ RuleVars IN        \* a rule variable is not changed by reactions
+    /\ IF Mode = "exhrules" THEN "k" \in Globals ELSE TRUE
+    /\ LET ok == SpNames \ RuleVars        \* a rule variable is not changed by reactions
+           first == Len(doc.rx) = 0 IN
        /\ (ok # {}) = TRUE
        /\ \E t \in (IF Mode = "exhrules" THEN {"uni"} ELSE Pick(KLTpls)), a1 \in Pick(PN), a2 \in Pick(PN), sa \in Pick(SpNames), sb \in Pick(SpNames),
-             reac \in (IF Mode = "sim" THEN Pick(Sides(ok)) ELSE IF Mode = "exhrules" THEN {Side1("S1", 1)} ELSE SidesSmall({"S1"})),
-             prod \in (IF Mode = "sim" THEN Pick(Sides(ok)) ELSE IF Mode = "exhrules" THEN {Side1("S2", 2)} ELSE SidesSmall({"S2"})),
+             \* exhrules: R0 = S1 -> 2 S2 with law k*S1 and a LOCAL k (different from / equal to the global k),
+             \*           R1 = S2 -> 0   with law k*S2 reading the GLOBAL k (which a rule may assign)
+             reac \in (IF Mode = "sim" THEN Pick(Sides(ok)) ELSE IF Mode = "exhrules" THEN {IF first THEN Side1("S1", 1) ELSE Side1("S2", 1)} ELSE SidesSmall({"S1"})),
+             prod \in (IF Mode = "sim" THEN Pick(Sides(ok)) ELSE IF Mode = "exhrules" THEN {IF first THEN Side1("S2", 2) ELSE << >>} ELSE {<< >>, Side1("S2", 3)}),
              extra \in (IF Mode = "sim" THEN Pick({{}, {"S1"}, {"S2"}}) ELSE {{}}),
-             lv \in (IF Mode = "sim" THEN Pick([PN -> LVals]) ELSE {[n \in PN |-> IF Len(doc.rx) = 0 THEN I(2) ELSE I(7)]}) :
-          IF Mode = "sim" \/ (a1 = "k" /\ a2 = "p" /\ sa = "S1" /\ sb = "S3")
-          THEN LET kl == KLOfTpl(t, a1, a2, sa, sb) IN
-               \E L \in (IF Mode = "exhrules" THEN {{"k"}} ELSE Pick(LocalSets(kl))) : doc' = [doc EXCEPT !.rx = Append(@, MkRx(reac, prod, kl, L, lv, extra))]
+             lv0 \in (IF Mode = "sim" THEN Pick([PN -> LVals]) ELSE {[n \in PN |-> I(2)], [n \in PN |-> I(5)]}),
+             same \in (IF Mode = "sim" THEN Pick(SUBSET PN) ELSE {{}}) :
+          IF Mode = "sim" \/ (a1 = "k" /\ a2 = "p" /\ sa = (IF Mode = "exhrules" /\ ~first THEN "S2" ELSE "S1") /\ sb = "S3")
+          THEN LET kl == KLOfTpl(t, a1, a2, sa, sb)
+                   \* a local in `same` that collides with a global repeats the global's value
+                   lv == [n \in PN |-> IF n \in same \cap Globals THEN GlobVal(n) ELSE lv0[n]] IN
+               \E L \in (IF Mode = "exhrules" THEN {IF first THEN {"k"} ELSE {}} ELSE Pick(LocalSets(kl))) :
+                  doc' = [doc EXCEPT !.rx = Append(@, MkRx(reac, prod, kl, L, lv, extra))]
           ELSE FALSE
     /\ UNCHANGED <<X, pc>>
 
@@ -119,7 +129,7 @@ AddAssignmentRule ==
     /\ pc = "body" /\ Len(doc.rules) < MaxRules /\ (Globals # {}) = TRUE
     /\ LET cand == ((SpNames \ Changed) \cup Globals) \ (RuleVars \cup AssignReads) IN
        /\ (cand # {}) = TRUE
-       /\ \E var \in (IF Mode = "sim" THEN Pick(cand) ELSE cand \cap {"S3", "p"}),
+       /\ \E var \in (IF Mode = "sim" THEN Pick(cand) ELSE cand \cap {"S3", "p", "k"}),
              t \in (IF Mode = "exhrules" THEN {"lin", "sum"} ELSE Pick(ATpls)), a1 \in Pick(Globals),
              sa \in (IF Mode = "sim" THEN Pick(SpNames) ELSE {"S1"}), sb \in (IF Mode = "sim" THEN Pick(SpNames) ELSE {"S2"}) :
           LET math == AMath(t, a1, sa, sb) IN
@@ -180,5 +190,10 @@ Emit == pc = "done" =>
     PrintT(ToJson([doc |-> doc, ns |-> NS, X |-> X,
                    exp |-> [init |-> sem.init, par |-> sem.par, stoich |-> sem.stoich, assigned |-> sem.assigned,
                             post |-> [i \in DOMAIN X |-> sem.post[i].x], deriv |-> sem.deriv,
-                            nrate |-> Len(am.rx) - am.nrx]]))
+                            nrate |-> Len(am.rx) - am.nrx],
+                   \* the user re-tunes one global after the import: locals must not move
+                   retune |-> [j \in DOMAIN doc.params |->
+                                  LET d2 == [doc EXCEPT !.params[j].val = I(4)] IN
+                                  [id |-> doc.params[j].id, val |-> I(4),
+                                   deriv |-> [i \in DOMAIN X |-> AMDeriv(Import(d2), X[i])]]]]))
 =============================================================================
